@@ -26,6 +26,16 @@ One more family (added after the seeded changes of wave 4):
   0, 1.5e-5 ... 1.5 eV away from the initial one (change = 0 and 1e-8 ... 1e-3 of the state values), with
   spectators, barriers of 0.62 eV and 0.2 meV, equal coefficients on both sides; judged with the existing
   clauses and with clauses whose tolerance is relative to the *change* (1e-6 |change| + 1e-13 sum|nu X|).
+
+Two more families (added after the seeded changes of wave 5):
+
+* constructor options - ChemkinReaction / SurfaceReaction (and Reaction: notes) built with their class-specific
+  options (is_adsorption, sticking_coeff, beta, A, Ea, direction, id, use_motz_wise, notes) through __init__ /
+  from_string / from_dict(to_dict()) / deepcopy, on sides that list gas-phase and non-gas species in every order with
+  different coefficients; the reference is the Hess sum over the species in the order and with the coefficients of
+  the case, evaluated on a twin of the same class made with default options from fresh species;
+* flag representation - the direction flags rev / act handed to every getter as numpy.bool_, Python int 1 / 0,
+  numpy.int64 and 0-d boolean arrays (all pairs of kinds, also only one of the two flags), at the three centres.
 """
 import copy
 import itertools
@@ -48,9 +58,17 @@ RULE = ('configurations = (reaction class, reactant multiset, product multiset, 
         'shape {hop, spectator on both sides, small partner}, energy step (9 levels), transition state {none, 0.62 eV, '
         '0.2 meV}, coefficient offset, T (2 scalars, 2 vectors), P, blocks, number type) within 2 deviations of one '
         'centre plus the full product family x class x step x transition state x T (thorough: x shape x P, vectors '
-        'included); configurations are de-duplicated on the concrete reaction + '
+        'included); constructor-option configurations = (class, option set (7 per class), ordered reactant side, '
+        'ordered product side over 1 non-gas + 3 gas-phase species, transition state, coefficient offset, construction '
+        'route {__init__, from_string, from_dict(to_dict()), deepcopy}, T (2 scalars, 1 vector), P, blocks) within 2 '
+        'deviations of one centre (ChemkinReaction, is_adsorption, non-gas reactant first) plus the full product class x '
+        'options x reactant side x route (thorough: all ordered pairs and triples, x transition state); '
+        'flag-representation configurations = (class, transition state, T, P, blocks, representation of rev, '
+        'representation of act; 5 kinds each) within 2 deviations of each of the three centres plus the full product '
+        'class x rev kind x act kind (thorough: x transition state x T); configurations are de-duplicated on the concrete reaction + '
         'keyword dictionary; a configuration is non-trivial when it has a keyword block, more than one '
-        'species on a side, two transition-state species, a vector condition or more than one call')
+        'species on a side, two transition-state species, a vector condition, more than one call, constructor '
+        'options / a construction route, or a flag that is not a Python bool')
 ASSUMPTIONS = ['species come from a pool of 7 side species + 6 transition-state species (one per model class); '
                'coefficients from the dyadic lattice {0.25,0.5,1,1.5,2,3,4}: every quantity is linear in the '
                'coefficients, so exactness on this lattice carries to all coefficients up to rounding',
@@ -68,7 +86,13 @@ ASSUMPTIONS = ['species come from a pool of 7 side species + 6 transition-state 
                'CpoR, HoRT, GoRT (with Keq) and q',
                'near-thermoneutral family: the tolerance relative to the change assumes that a reaction quantity is '
                'obtained from the species values by a handful of floating-point additions (1e-13 x sum|nu X| = some '
-               'hundred units in the last place of the state values)']
+               'hundred units in the last place of the state values)',
+               'constructor options: the class-specific options describe the rate expression / output format and are '
+               'taken not to enter any thermodynamic getter of C08; the species of this family are the empirical ones '
+               'that carry a phase (NS: S; XSG, SH, N9: G)',
+               'flags: rev / act are documented as bool; truthy / falsy values a bool-typed option receives in practice '
+               '(numpy.bool_, int 1 / 0, numpy.int64, 0-d boolean array) are read by their truth value; strings and None '
+               'are not enumerated']
 EXPLANATION = ('deviation-bounded exhaustive enumeration of reaction configurations, vector-condition configurations '
                'and call histories executed on the real classes; linear reference model from the species getters '
                '(element-wise scalar evaluation for vector conditions)')
@@ -135,6 +159,31 @@ SUPPORT.update({k: (R.ALL9 if k[0] == 'L' else R.EMP4) for k in NEAR_KEYS})
 STATMECH_KEYS = tuple(R.STATMECH_KEYS) + tuple(k for k in NEAR_KEYS if k[0] == 'L')
 TIGHT = ' to the accuracy of the change (1e-6 |change| + 1e-13 sum|nu X|)'
 
+# ---- constructor-option family: class-specific options (is_adsorption, sticking_coeff, beta, A, Ea, direction, id,
+# use_motz_wise, notes) on reactions whose sides mix gas-phase and non-gas species in every order
+OPT_POOL = ['NS', 'XSG', 'SH', 'N9']              # NS: phase 'S'; XSG, SH, N9: phase 'G'
+OPT_NONGAS = ('NS',)
+OPTIONS = {
+    'ChemkinReaction': [dict(is_adsorption=True, sticking_coeff=0.3), {}, dict(is_adsorption=True), dict(beta=0.0),
+                        dict(is_adsorption=True, sticking_coeff=1.0, beta=0.5),
+                        dict(is_adsorption=False, sticking_coeff=0.3), dict(notes='from DFT')],
+    'SurfaceReaction': [dict(is_adsorption=True, sticking_coeff=0.3), {}, dict(is_adsorption=True),
+                        dict(A=1.0e13, beta=0.0, Ea=12.5), dict(is_adsorption=True, use_motz_wise=True, beta=0.5),
+                        dict(direction='cleavage', id=7), dict(notes='from DFT')],
+    'Reaction': [{}, {}, {}, {}, {}, {}, dict(notes='from DFT')],
+}
+NOPT = 7
+OPT_CLASSES = ['ChemkinReaction', 'SurfaceReaction', 'Reaction']
+OPT_TS = [['TSN'], None, ['BEP']]
+OPT_ROUTE = ['init', 'from_string', 'dict', 'deepcopy']
+OPT_T = [300.0, 850.0, 'v1']                      # v1: VEC_SHAPES[1]
+OPT_BLK = [0, 1, 4]
+OPT_ST = {'quick': [2, 3, 5, 8], 'thorough': list(range(2, 9))}
+
+# ---- flag family: the direction flags rev / act handed over as something other than the singletons True / False
+FLAG_KINDS = ['npbool', 'bool', 'int', 'npint', 'arr0']
+FLAG_BLK = [0, 1, 4]
+
 PLANNED_TAGS = (['cls:' + c for c in CLASSES] +
                 ['ts:none', 'ts:explicit', 'ts:bep', 'ts:two', 'blk:none', 'blk:reactant', 'blk:product',
                  'blk:ts', 'blk:absent', 'blk:several', 'dir:rev', 'dir:act', 'side:repeated-species',
@@ -151,6 +200,14 @@ PLANNED_TAGS = (['cls:' + c for c in CLASSES] +
                  'change:0', 'change:below-1e-6-of-state', 'change:1e-6..1e-4-of-state',
                  'change:1e-4..1e-2-of-state', 'change:large'] +
                 ['hist:route:' + r for r in HIST_ROUTE] +
+                ['opt:none', 'opt:is_adsorption', 'opt:is_adsorption-explicit-false', 'opt:sticking_coeff', 'opt:beta',
+                 'opt:A-Ea', 'opt:direction-id', 'opt:motz-wise', 'opt:notes', 'opt:nongas-before-gas',
+                 'opt:gas-before-nongas', 'opt:adsorption-nongas-before-gas', 'opt:all-gas', 'opt:three-reactants',
+                 'opt:vector-T', 'opt:blocks'] +
+                ['opt:route:' + r for r in OPT_ROUTE] +
+                ['flag:rev:' + k for k in FLAG_KINDS if k != 'bool'] +
+                ['flag:act:' + k for k in FLAG_KINDS if k != 'bool'] +
+                ['flag:rev-only', 'flag:act-only', 'flag:both', 'flag:different-kinds'] +
                 ['getter:' + q for q in R.QUANT])
 
 
@@ -322,6 +379,68 @@ def _enumerate_near(tier, add):
         add(concretise_near(cfg))
 
 
+# ---- constructor-option family
+def _opt_sides(tier, which):
+    singles = [[k] for k in OPT_POOL]
+    pairs = [list(p) for p in itertools.permutations(OPT_POOL, 2)]          # both orders of every pair
+    triples = [list(p) for p in itertools.permutations(OPT_POOL, 3)]
+    if tier == 'quick':
+        if which == 'P':
+            return singles + [p for i, p in enumerate(pairs) if i % 3 == 0]
+        return singles + pairs + [['SH', 'NS', 'XSG'], ['NS', 'N9', 'NS']]
+    return singles + pairs + triples + [['NS', 'N9', 'NS'], ['XSG', 'XSG', 'NS'], ['NS', 'XSG', 'NS', 'SH']]
+
+
+OPT_CENTRE = dict(R=['NS', 'XSG'], P=['N9'])
+OPT_PRODUCT_R = {'quick': [['NS', 'XSG'], ['XSG', 'NS'], ['NS', 'SH'], ['SH', 'NS', 'XSG']]}
+
+
+def _opt_coords(tier):
+    rs = _opt_sides(tier, 'R')
+    ps = _opt_sides(tier, 'P')
+    rs = [OPT_CENTRE['R']] + [s for s in rs if s != OPT_CENTRE['R']]
+    ps = [OPT_CENTRE['P']] + [s for s in ps if s != OPT_CENTRE['P']]
+    return [('cls', OPT_CLASSES), ('opt', list(range(NOPT))), ('R', rs), ('P', ps), ('TS', OPT_TS),
+            ('st', OPT_ST[tier]), ('route', OPT_ROUTE), ('T', OPT_T), ('Pr', PRESS), ('blk', OPT_BLK)]
+
+
+def _enumerate_options(tier, add):
+    coords = _opt_coords(tier)
+    base = _deviations(coords, 2, add, concretise_opt)
+    small = ['cls', 'opt', 'R', 'route'] + (['TS'] if tier != 'quick' else [])
+    opts = [dict(coords)[n] for n in small]
+    if tier == 'quick':
+        opts[2] = OPT_PRODUCT_R['quick']
+    for vals in itertools.product(*opts):
+        cfg = dict(base)
+        cfg.update(dict(zip(small, vals)))
+        add(concretise_opt(cfg))
+
+
+# ---- flag family
+def _flag_coords(tier, centre):
+    coords = dict(_coords(tier, centre))
+    ts = coords['TS'] if tier != 'quick' else coords['TS'][:5]
+    return [('cls', coords['cls']), ('TS', ts), ('T', TEMPS), ('Pr', PRESS), ('blk', FLAG_BLK),
+            ('frev', FLAG_KINDS), ('fact', FLAG_KINDS)], coords
+
+
+def _enumerate_flags(tier, add):
+    for centre in CENTRES:
+        coords, full = _flag_coords(tier, centre)
+        rest = {n: full[n][0] for n in ('R', 'P', 'st', 'zpe', 'num')}
+
+        def make(cfg, rest=rest):
+            return concretise_flag(dict(rest, **cfg))
+        base = _deviations(coords, 2, add, make)
+        small = ['cls', 'frev', 'fact'] + (['TS', 'T'] if tier != 'quick' else [])
+        opts = [dict(coords)[n] for n in small]
+        for vals in itertools.product(*opts):
+            cfg = dict(base)
+            cfg.update(dict(zip(small, vals)))
+            add(make(cfg))
+
+
 _ENUM_CACHE = {}
 
 
@@ -343,6 +462,8 @@ def _enumerate(tier):
     _enumerate_vector(tier, add)
     _enumerate_history(tier, add)
     _enumerate_near(tier, add)
+    _enumerate_options(tier, add)
+    _enumerate_flags(tier, add)
     _ENUM_CACHE[tier] = out
     return out
 
@@ -503,14 +624,58 @@ def concretise_near(cfg):
     return dict(cls=cls, R=Rs, P=Ps, TS=TS, kw=kw, near=True)
 
 
+def concretise_opt(cfg):
+    """A reaction of one of the three classes built with class-specific constructor options, through one of four
+    construction routes; the sides list gas-phase and non-gas species in the given order, consecutive species always
+    carry different coefficients (_side_maker)."""
+    side = _side_maker(cfg['st'])
+    Rs, Ps = side(cfg['R']), side(cfg['P'])
+    TS = side(cfg['TS']) if cfg['TS'] else None
+    if isinstance(cfg['T'], str):
+        values, dtype = VEC_SHAPES[int(cfg['T'][1:])]
+        kw = {'T': _vec(values, dtype)}
+    else:
+        kw = {'T': cfg['T']}
+    if cfg['Pr'] is not None:
+        kw['P'] = cfg['Pr']
+    _blocks(kw, cfg['blk'], Rs, Ps, TS)
+    return dict(cls=cfg['cls'], R=Rs, P=Ps, TS=TS, kw=kw, opts=dict(OPTIONS[cfg['cls']][cfg['opt']]),
+                route=cfg['route'])
+
+
+def concretise_flag(cfg):
+    """A scalar configuration whose getters receive rev / act in the given representation."""
+    case = concretise(dict(cfg))
+    if (cfg['frev'], cfg['fact']) != ('bool', 'bool'):
+        case['flags'] = [cfg['frev'], cfg['fact']]
+    return case
+
+
+def _flag(b, kind):
+    """The truth value b in the representation `kind`."""
+    if kind == 'bool':
+        return b
+    if kind == 'npbool':
+        return np.bool_(b)              # what indexing / iterating a boolean array or a pandas column hands out
+    if kind == 'int':
+        return 1 if b else 0
+    if kind == 'npint':
+        return np.int64(1 if b else 0)
+    if kind == 'arr0':
+        return np.array(bool(b))        # 0-d boolean array
+    raise KeyError(kind)
+
+
 N_SHARDS = {'quick': 32, 'thorough': 64}
 
 
 def bounds(tier):
     cases = _enumerate(tier)
     nh = sum(1 for c in cases if c.get('kind') == 'history')
-    nv = sum(1 for c in cases if _has_vec(c) and not c.get('near'))
+    nv = sum(1 for c in cases if _has_vec(c) and not c.get('near') and 'opts' not in c)
     nn = sum(1 for c in cases if c.get('near'))
+    no = sum(1 for c in cases if 'opts' in c)
+    nf = sum(1 for c in cases if c.get('flags'))
     return dict(side_species=R.SIDE_POOL, ts_options=TS_Q if tier == 'quick' else TS_T,
                 sides_per_centre=len(_sides(tier, ['SG'])), coefficients=R.COEFFS,
                 classes=CLASSES, T=TEMPS, P=PRESS, include_ZPE=ZPE, block_patterns=NBLK, number_types=NUM,
@@ -523,11 +688,21 @@ def bounds(tier):
                 history_reactions=len(HIST_RXN), history_TP=HIST_TP, history_sequences=len(_hist_sequences(tier)),
                 history_block_patterns=HIST_BLK, history_reuse=HIST_REUSE, history_routes=HIST_ROUTE,
                 history_deviation_level=2 if tier == 'quick' else 3, history_getters=HIST_QUANT,
-                configurations=len(cases), scalar_configurations=len(cases) - nh - nv - nn,
+                configurations=len(cases), scalar_configurations=len(cases) - nh - nv - nn - no - nf,
                 vector_configurations=nv, histories=nh,
                 near_thermoneutral=dict(configurations=nn, slab_energy_eV=E_SLAB,
                                         steps_eV=NEAR_DE, barriers_eV=NEAR_BARRIER, family_class=NEAR_FAMCLS,
-                                        shapes=NEAR_SHAPES, T=NEAR_T, blocks=NEAR_BLK))
+                                        shapes=NEAR_SHAPES, T=NEAR_T, blocks=NEAR_BLK),
+                constructor_options=dict(configurations=no, classes=OPT_CLASSES, options=OPTIONS, species=OPT_POOL,
+                                         non_gas=list(OPT_NONGAS), reactant_sides=len(_opt_sides(tier, 'R')),
+                                         product_sides=len(_opt_sides(tier, 'P')), ts_options=OPT_TS,
+                                         routes=OPT_ROUTE, T=OPT_T, blocks=OPT_BLK, offsets=OPT_ST[tier],
+                                         deviation_level=2,
+                                         full_product='cls x options x reactant side x route' +
+                                         ('' if tier == 'quick' else ' x TS')),
+                flag_representation=dict(configurations=nf, kinds=FLAG_KINDS, blocks=FLAG_BLK, deviation_level=2,
+                                         full_product='cls x rev kind x act kind' +
+                                         ('' if tier == 'quick' else ' x TS x T') + ' at each of the three centres'))
 
 
 def shards(tier):
@@ -654,9 +829,9 @@ def _reaction_class(name):
     return cls
 
 
-def make_reaction(cls_name, states, keys_RP):
-    """The reaction of class cls_name on the species objects of states; None when ChemkinReaction
-    refuses a StatMech species."""
+def make_reaction(cls_name, states, keys_RP, opts=None):
+    """The reaction of class cls_name on the species objects of states (opts: further constructor options);
+    None when ChemkinReaction refuses a StatMech species."""
     kwargs = dict(reactants=[s for s, _, _ in states['reactants']],
                   reactants_stoich=[nu for _, _, nu in states['reactants']],
                   products=[s for s, _, _ in states['products']],
@@ -664,6 +839,8 @@ def make_reaction(cls_name, states, keys_RP):
     if states['ts']:
         kwargs.update(transition_state=[s for s, _, _ in states['ts']],
                       transition_state_stoich=[nu for _, _, nu in states['ts']])
+    if opts:
+        kwargs.update(copy.deepcopy(opts))
     cls = _reaction_class(cls_name)
     if cls_name == 'ChemkinReaction':
         # ChemkinReaction classifies itself from species.phase at construction; StatMech species have none
@@ -683,6 +860,28 @@ def build(case):
     if rxn is None:
         return None, 'chemkin-needs-phase'
     return rxn, states
+
+
+def _construct(case):
+    """The reaction of an option-family case: class, constructor options and construction route of the case, on
+    fresh species.  None when from_dict leaves a species undecoded."""
+    cls = _reaction_class(case['cls'])
+    states = build_states(case)
+    keys_RP = [k for k, _ in case['R'] + case['P']]
+    opts = case.get('opts') or {}
+    if case['route'] == 'from_string':
+        species = {key: sp for lst in states.values() if lst for sp, key, _ in lst}
+        return cls.from_string(_reaction_string(case), species, **copy.deepcopy(opts))
+    rxn0 = make_reaction(case['cls'], states, keys_RP, opts)
+    if case['route'] == 'init':
+        return rxn0
+    if case['route'] == 'deepcopy':
+        return copy.deepcopy(rxn0)
+    rxn = cls.from_dict(rxn0.to_dict())
+    if any(isinstance(sp, dict) for sp in list(rxn.reactants) + list(rxn.products) +
+           list(rxn.transition_state or [])):
+        return None
+    return rxn
 
 
 BEP_NEEDS = {'UoRT': ['UoRT'], 'HoRT': ['HoRT'], 'SoR': ['SoR'], 'FoRT': ['UoRT', 'SoR'],
@@ -841,6 +1040,17 @@ def _tags(case, ctx):
         ctx.tag('num:int-coefficient')
     for kw in ([case['kw']] if 'kw' in case else case['conds']):
         _tags_kw(kw, rk, pk, tk, ctx)
+    if 'opts' in case:
+        _tags_opt(case, rk, ctx)
+    if case.get('flags'):
+        krev, kact = case['flags']
+        if krev != 'bool':
+            ctx.tag('flag:rev:' + krev)
+        if kact != 'bool':
+            ctx.tag('flag:act:' + kact)
+        ctx.tag('flag:both' if 'bool' not in (krev, kact) else 'flag:rev-only' if kact == 'bool' else 'flag:act-only')
+        if 'bool' not in (krev, kact) and krev != kact:
+            ctx.tag('flag:different-kinds')
     if case.get('near'):
         ctx.tag('near:statmech' if rk[0][0] == 'L' else 'near:nasa')
         tail = pk[-1][1:]
@@ -858,6 +1068,37 @@ def _tags(case, ctx):
             ctx.tag('near:per-species-T')
         if isinstance(case['kw'].get('T'), int):
             ctx.tag('near:int')
+
+
+def _tags_opt(case, rk, ctx):
+    opts = case['opts']
+    ctx.tag('opt:route:' + case['route'])
+    if not opts:
+        ctx.tag('opt:none')
+    if opts.get('is_adsorption'):
+        ctx.tag('opt:is_adsorption')
+    if opts.get('is_adsorption') is False:
+        ctx.tag('opt:is_adsorption-explicit-false')
+    for k, t in (('sticking_coeff', 'sticking_coeff'), ('beta', 'beta'), ('A', 'A-Ea'), ('direction', 'direction-id'),
+                 ('use_motz_wise', 'motz-wise'), ('notes', 'notes')):
+        if k in opts:
+            ctx.tag('opt:' + t)
+    gas = [k not in OPT_NONGAS for k in rk]
+    before = any((not gas[i]) and any(gas[i + 1:]) for i in range(len(gas)))
+    if before:
+        ctx.tag('opt:nongas-before-gas')
+        if opts.get('is_adsorption'):
+            ctx.tag('opt:adsorption-nongas-before-gas')
+    if any(gas[i] and not all(gas[i + 1:]) for i in range(len(gas))):
+        ctx.tag('opt:gas-before-nongas')
+    if all(gas):
+        ctx.tag('opt:all-gas')
+    if len(rk) >= 3:
+        ctx.tag('opt:three-reactants')
+    if _is_vec(case['kw'].get('T')):
+        ctx.tag('opt:vector-T')
+    if any(k.endswith('_kwargs') for k in case['kw']):
+        ctx.tag('opt:blocks')
 
 
 def _tags_kw(kw, rk, pk, tk, ctx):
@@ -917,7 +1158,8 @@ def _nontrivial(case):
         return True
     kw = case['kw']
     return bool(any(k.endswith('_kwargs') for k in kw) or len(case['R']) > 1 or len(case['P']) > 1
-                or (case['TS'] and len(case['TS']) > 1) or _has_vec(case) or case.get('near'))
+                or (case['TS'] and len(case['TS']) > 1) or _has_vec(case) or case.get('near')
+                or 'opts' in case or case.get('flags'))
 
 
 def _base_sig(case):
@@ -933,11 +1175,18 @@ def _base_sig(case):
         sig['T'] = 'array'
     if case.get('near'):
         sig['family'] = 'near-thermoneutral'
+    if 'opts' in case:
+        sig['family'] = 'constructor-options'
+        sig['route'] = case['route']
+        sig['options'] = '+'.join(sorted(case['opts'])) or 'none'
+    if case.get('flags'):
+        sig['family'] = 'flag-representation'
+        sig['flag_rev'], sig['flag_act'] = case['flags']
     return sig
 
 
 # ------------------------------------------------------------------ the clauses on one call set
-def _clauses(ctx, case, sig0, rxn, states, vals, kw, kws, n, quants, clamped_cls, locality=True):
+def _clauses(ctx, case, sig0, rxn, states, vals, kw, kws, n, quants, clamped_cls, locality=True, flags=None):
     """All clauses of C08 for one reaction object and one keyword dictionary.
 
     kw      the dictionary passed to the getters (may hold numpy arrays);
@@ -946,6 +1195,14 @@ def _clauses(ctx, case, sig0, rxn, states, vals, kw, kws, n, quants, clamped_cls
     states  the species the reference evaluates (the reaction's own, or those of a twin);
     vals    reference values (species getters of `states`, evaluated at scalars only)."""
     canon_before = _canon(copy.deepcopy(kw))
+    # how the direction flags are handed over: Python bool (default) or another truthy / falsy representation
+    krev, kact = flags or ('bool', 'bool')
+
+    def fr(b):
+        return _flag(b, krev)
+
+    def fa(b):
+        return _flag(b, kact)
 
     def unmodified(sig):
         ctx.equal('caller keyword dictionaries (nested blocks included) unmodified', _canon(kw), canon_before,
@@ -1049,7 +1306,7 @@ def _clauses(ctx, case, sig0, rxn, states, vals, kw, kws, n, quants, clamped_cls
                     ctx.tag('dir:act')
                 sig = dict(sig0, getter=name_delta, rev=rev, act=act)
                 try:
-                    v = _scalar(_call(ctx, sig, case, getattr(rxn, name_delta), rev=rev, act=act, **kwq))
+                    v = _scalar(_call(ctx, sig, case, getattr(rxn, name_delta), rev=fr(rev), act=fa(act), **kwq))
                 except _Failed:
                     continue
                 unmodified(sig)
@@ -1109,7 +1366,7 @@ def _clauses(ctx, case, sig0, rxn, states, vals, kw, kws, n, quants, clamped_cls
                     continue
                 sig = dict(sig0, getter=name_act, rev=rev, act=True)
                 try:
-                    v = _scalar(_call(ctx, sig, case, getattr(rxn, name_act), rev=rev, **kwq))
+                    v = _scalar(_call(ctx, sig, case, getattr(rxn, name_act), rev=fr(rev), **kwq))
                 except _Failed:
                     continue
                 unmodified(sig)
@@ -1146,10 +1403,10 @@ def _clauses(ctx, case, sig0, rxn, states, vals, kw, kws, n, quants, clamped_cls
                     try:
                         if withT:
                             v = _scalar(_call(ctx, sig, case, getattr(rxn, 'get_delta_' + short), units=units,
-                                              T=T, rev=rev, act=act, **kwd))
+                                              T=T, rev=fr(rev), act=fa(act), **kwd))
                         else:
                             v = _scalar(_call(ctx, sig, case, getattr(rxn, 'get_delta_' + short), units=units,
-                                              rev=rev, act=act, **kwd))
+                                              rev=fr(rev), act=fa(act), **kwd))
                     except _Failed:
                         continue
                     ini, fin = _initial_final(rev, act)
@@ -1161,10 +1418,10 @@ def _clauses(ctx, case, sig0, rxn, states, vals, kw, kws, n, quants, clamped_cls
                         try:
                             if withT:
                                 va = _scalar(_call(ctx, sig, case, getattr(rxn, 'get_%s_act' % short),
-                                                   units=units, T=T, rev=rev, **kwd))
+                                                   units=units, T=T, rev=fr(rev), **kwd))
                             else:
                                 va = _scalar(_call(ctx, sig, case, getattr(rxn, 'get_%s_act' % short),
-                                                   units=units, rev=rev, **kwd))
+                                                   units=units, rev=fr(rev), **kwd))
                         except _Failed:
                             continue
                         ctv.close('dimensional activation quantity = (transition state - initial) x R[T]', va,
@@ -1200,7 +1457,7 @@ def _clauses(ctx, case, sig0, rxn, states, vals, kw, kws, n, quants, clamped_cls
                         ctx.refuse('Keq beyond the double range (|dG/RT| > 650)')
                         continue
                     try:
-                        v = _scalar(_call(ctx, sig, case, rxn.get_Keq, rev=rev, act=act, **kwq))
+                        v = _scalar(_call(ctx, sig, case, rxn.get_Keq, rev=fr(rev), act=fa(act), **kwq))
                     except _Failed:
                         continue
                     ctx.tag('keq:finite')
@@ -1268,7 +1525,20 @@ def _clauses(ctx, case, sig0, rxn, states, vals, kw, kws, n, quants, clamped_cls
 def check_config(case, ctx):
     """All clauses of C08 on one configuration (scalar or vector conditions)."""
     sig0 = _base_sig(case)
-    rxn, states = build(case)
+    twin = None
+    if 'opts' in case:
+        # constructor-option family: the reaction under test is made with the options through the route; the
+        # reference is evaluated on a twin of the same class built separately, with default options, from fresh
+        # species listed in the order of the case
+        states = build_states(case)
+        twin = make_reaction(case['cls'], states, [k for k, _ in case['R'] + case['P']])
+        rxn = _construct(case)
+        if rxn is None:
+            ctx.trace()
+            ctx.refuse('from_dict(to_dict()) leaves a species undecoded (serialisation: C11)')
+            return
+    else:
+        rxn, states = build(case)
     ctx.trace()
     if rxn is None:
         ctx.refuse('ChemkinReaction: StatMech species have no .phase')
@@ -1282,9 +1552,10 @@ def check_config(case, ctx):
     kws = [_slice(case['kw'], i) for i in (range(n) if n is not None else [None])]
     if n is not None:
         ctx.tag('vec:result-scribbled')
-    vals = Values(rxn, states, ctx)
+    vals = Values(twin if twin is not None else rxn, states, ctx)
     try:
-        _clauses(ctx, case, sig0, rxn, states, vals, kw, kws, n, R.QUANT, case['cls'] != 'Reaction')
+        _clauses(ctx, case, sig0, rxn, states, vals, kw, kws, n, R.QUANT, case['cls'] != 'Reaction',
+                 flags=case.get('flags'))
     except _NotScalar as e:
         ctx.fail('scalar conditions give one number', dict(sig0, getter='BEP through the reaction'), case,
                  str(e), 'a scalar')
@@ -1459,10 +1730,13 @@ LEVEL_TEXT = ('Deviation-bounded exhaustive enumeration of reaction configuratio
               'blocks x number type) around three centre reactions, complete to 2 deviations, plus the full product of the '
               'condition coordinates at each centre; vector-condition configurations (numpy T vectors, globally and '
               'in species blocks) on empirical reactions, and call histories on one reaction object with a reused '
-              'conditions dictionary; every configuration is built and evaluated on the real '
+              'conditions dictionary; reactions built with class-specific constructor options through four construction '
+              'routes on sides that order gas-phase and non-gas species in every way; direction flags in five '
+              'representations; every configuration is built and evaluated on the real '
               'Reaction/ChemkinReaction/SurfaceReaction and compared with the linear reference sum(nu_i X_i).')
 LEVEL_NOTE = ('Species from a 13-member pool (one per model class), coefficients from a 7-point dyadic lattice; '
               'quick uses 28 side multisets per coordinate, thorough 35 plus 3-4 species sides and the coefficient '
               'offset in the full product; vectors of length 1-5 on 4 empirical species; histories of 2-3 condition '
-              'sets on 6 reactions.')
+              'sets on 6 reactions; 7 option sets per class on 18 (thorough 43) ordered reactant sides; 5 x 5 flag '
+              'representations.')
 TECHNIQUE = 'deviation-bounded product enumeration on the implementation, linear reference-model oracle'
